@@ -317,6 +317,7 @@ func (env *SpecEnv) lookupIdent(name string) (SV, bool, error) {
 		}
 		// locals by name, in function order
 		n := 0
+		var declared types.Type
 		for _, b := range f.fn.Blocks {
 			for _, ins := range b.Instrs {
 				a, ok := ins.(*ssa.Alloc)
@@ -328,6 +329,9 @@ func (env *SpecEnv) lookupIdent(name string) (SV, bool, error) {
 					continue
 				}
 				et := derefType(a.Type())
+				if declared == nil {
+					declared = et
+				}
 				if c, ok := f.cells[a]; ok {
 					if v, live := env.st.cells[c]; live {
 						return SV{t: v, typ: et}, true, nil
@@ -346,6 +350,10 @@ func (env *SpecEnv) lookupIdent(name string) (SV, bool, error) {
 					return SV{}, false, fmt.Errorf("local %s is not allocated yet", name)
 				}
 			}
+		}
+		if declared != nil && ord == 0 {
+			// declared in this function but not live on the paths reaching this point: unconstrained
+			return SV{t: f.havocOfType(declared, "notlive_"+base).(*Term), typ: declared}, true, nil
 		}
 		// free variables of closures
 		for _, fv := range f.fn.FreeVars {
@@ -900,7 +908,8 @@ func (env *SpecEnv) call(e *Expr) (SV, error) {
 				}
 				v, ok := env.f.vals[c]
 				if !ok {
-					return SV{}, fmt.Errorf("resultof(%s,%d): call not executed yet at this point", e.Args[0].Name, k)
+					// not executed on the paths reaching this point: an unconstrained value (conservative for obligations)
+					v = env.f.havocOfType(c.Type(), "notyet")
 				}
 				rs := c.Call.Signature().Results()
 				switch x := v.(type) {
